@@ -97,7 +97,7 @@ CLAIMED = {
         "for the token rules translated from Idl.g4 (computable side condition table_ok, decided by vm_compute) the lexemes in front of a line break do not depend on "
         "anything that follows it (C11_line_break_isolates_what_precedes, from prefix determinacy of the pattern matcher), and lexing continues from a boundary depending only on the position; "
         "the same for blank, tab and carriage return, and as the statement a user reads: between two lexemes a white-space run may be replaced by any other white-space run that starts "
-        "with the same character - same lexemes in front, same token types and texts after, only positions move (C11_white_space_runs_are_interchangeable).",
+        "with the same character - same lexemes in front, same token types and texts after, only positions move (C11_white_space_runs_are_interchangeable), hence the same parse tree up to positions or both rejected (C11_white_space_does_not_change_the_tree).",
    note="Trusted: Coq kernel; the real pipeline is the subject of the metamorphic runs (no model of the generators here). Known "
         "finding C11-K1 (order decides which of two colliding declarations survives; consequence of C15).",
    technique="Coq proof (permutation/split invariance of diagnostics and bindings) + metamorphic comparison of the implementation's outputs", design="7/C11"),
